@@ -76,6 +76,18 @@ pub fn gen_history(rng: &mut Rng, len: usize, next_id: &mut u64) -> Vec<Op> {
         };
         if op == Op::Commit { since_commit = 0 } else { since_commit += 1 }
         ops.push(op);
+        // directed patterns (harmless on correct code):
+        //  * a deletes-only commit (the commit writes a .del file but no new segment)
+        //  * uncommitted delete + add, then the workers are flushed WITHOUT a commit (wait_merging_threads /
+        //    drop): merge policies run on committed segments while uncommitted deletes are queued
+        let r2 = rng.below(100);
+        if r2 < 6 { ops.push(Op::DelTerm(rng.below(5) as u8)); ops.push(Op::Commit); since_commit = 0; }
+        else if r2 < 11 {
+            ops.push(Op::DelTerm(rng.below(5) as u8));
+            *next_id += 1;
+            ops.push(Op::Add { id: *next_id, tag: rng.below(5) as u8, nwords: 2 });
+            ops.push(if rng.chance(1, 2) { Op::WaitMerges } else { Op::MergeAll });
+        }
         if since_commit > 9 { ops.push(Op::Commit); since_commit = 0; }
     }
     ops.push(Op::Commit);
@@ -419,6 +431,10 @@ impl CrashSim {
         }
     }
     pub fn num_pending(&self) -> usize { self.pend.len() }
+    /// kind of each pending directory operation: 'L'ink, 'U'nlink, 'A'tomic replace
+    pub fn pending_kinds(&self) -> Vec<char> {
+        self.pend.iter().map(|o| match o { DirOp::Link(_) => 'L', DirOp::Unlink(_) => 'U', DirOp::SetAtomic(..) => 'A' }).collect()
+    }
     /// crash outcome: keep the pending operations selected by `keep` (a subsequence); files whose
     /// data was not fsynced keep a prefix chosen by `rng`.
     pub fn image(&self, keep: &[bool], rng: &mut Rng) -> BTreeMap<String, Vec<u8>> {
